@@ -114,6 +114,27 @@ func registerModels(ex *Exec) {
 		s.Stack = append(s.Stack, nf)
 		return pushed{}, nil, nil
 	}
+	m["intrinsic:verifUF"] = func(ex *Exec, s *State, cc *ssa.CallCommon, a []Value) (Value, *Fork, error) {
+		// verifUF(name string, bits int, in []byte) uint64: an uninterpreted function of the bytes
+		nv, ok := a[0].(StringV)
+		name, ok2 := nv.Concrete()
+		bt := a[1].(*Term)
+		if !ok || !ok2 || !bt.IsConst() {
+			return nil, nil, unsupported("verifUF needs constant name and width")
+		}
+		bs, err := ex.sliceBytes(s, a[2].(SliceV))
+		if err != nil {
+			return nil, nil, err
+		}
+		bits := int(bt.U)
+		var r *Term
+		if len(bs) == 0 {
+			r = ex.Ctx.Var(fmt.Sprintf("uf_%s_0", name), SBV(bits))
+		} else {
+			r = ex.Ctx.App(fmt.Sprintf("uf_%s_%d", name, len(bs)), SBV(bits), ex.Ctx.Concat(bs...))
+		}
+		return ex.Ctx.ZExt(r, 64), nil, nil
+	}
 	m["intrinsic:verifAsAssign"] = modelAsAssign
 	m["intrinsic:verifObserve"] = func(ex *Exec, s *State, cc *ssa.CallCommon, a []Value) (Value, *Fork, error) {
 		return nil, nil, nil
